@@ -85,6 +85,11 @@ REQUIRED_COUNTERS = (['obs:d_dx:complex-step', 'obs:d_dx:fd7', 'obs:d_dx:batched
                      + ['cell:mmsc:' + m for m in GENERAL + FIXED]
                      + ['cell:splinecomp:' + m for m in SPLINE])
 
+# parts splinemulti / tablemulti / interleave / cachestate (derivative state shared between the splines / outputs of
+# one component, between objects, and between calls): omv/gen/c16_kit.py
+from omv.gen import c16_kit as KIT       # noqa: E402
+REQUIRED_COUNTERS = REQUIRED_COUNTERS + KIT.required_counters(GENERAL, FIXED, SPLINE)
+
 ILL = 1e-6
 CS = 1e-30
 W7 = np.array([-1.0, 9.0, -45.0, 0.0, 45.0, -9.0, 1.0]) / 60.0
@@ -892,6 +897,7 @@ def judge_splinecomp(case, acc):
 # ------------------------------------------------------------------------------------------------
 JUDGES = {'ddx': judge_ddx, 'train': judge_train, 'spline': judge_spline, 'mmsc': judge_mmsc,
           'splinecomp': judge_splinecomp}
+JUDGES.update(KIT.JUDGES)
 
 
 def judge(case, acc):
@@ -977,6 +983,8 @@ def _cases(tier, seed):
             if m == 'akima' and len(c['npts']) > 1:
                 c = dict(c, outside=True, seed=c['seed'] + 1)
                 out.append(c)
+    # shared / cached derivative state (appended last: the cases above keep their random streams)
+    out.extend(KIT.cases(tier, seed, rng, base, akima_opts, GENERAL, FIXED, SPLINE))
     return out
 
 
